@@ -11,7 +11,7 @@ import sys
 import shutil
 
 VERIF = os.path.dirname(os.path.dirname(os.path.abspath(__file__)))
-SCR = '/var/tmp/vp-selftest'
+SCR = os.environ.get('VERIF_SELFTEST_SCR', '/var/tmp/vp-selftest')
 
 
 def fresh_copy():
